@@ -500,3 +500,91 @@ func vB3(b []bool) string {
 	}
 	return s
 }
+
+// VerifC18LivingSource: ONE MultiSource object, configured through
+// ParseDependencies as a scheduled job's is, lives across runs while the
+// datasets under it are rebuilt: the main dataset (or the dependency dataset)
+// is deleted, re-created under the same name, refilled, and the job reset.
+// After the rebuilt job has caught up, a change to the dependency entity still
+// re-emits every main entity joined to it, from the dataset now registered
+// under the main name.
+func VerifC18LivingSource(h *verifh.H) {
+	hub := server.VerifNewHub(h)
+	M, _ := hub.Dsm.CreateDataset("M", nil)
+	D, _ := hub.Dsm.CreateDataset("D", nil)
+	inverse := h.Choice("inverse", 2) == 1 // true: m -p1-> d; false: d -p1-> m
+	mk := func(id, tag, ref string) *server.Entity {
+		e := server.NewEntity(id, 0)
+		e.Properties["ns0:tag"] = tag
+		if ref != "" {
+			e.References["ns0:p1"] = ref
+		}
+		return e
+	}
+	fill := func(tag string) {
+		mref, dref := "", ""
+		if inverse {
+			mref = "ns0:d1"
+		} else {
+			dref = "ns0:m1"
+		}
+		h.Assert(M.StoreEntities([]*server.Entity{mk("ns0:m1", tag, mref), mk("ns0:m2", tag, "")}) == nil, "write M")
+		h.Assert(D.StoreEntities([]*server.Entity{mk("ns0:d1", tag, dref)}) == nil, "write D")
+	}
+	fill("t0")
+	ms := &source.MultiSource{DatasetName: "M", Store: hub.Store, DatasetManager: hub.Dsm, Logger: hub.Env.Logger}
+	deps := []interface{}{map[string]interface{}{"dataset": "D", "joins": []interface{}{map[string]interface{}{"dataset": "M", "predicate": "ns0:p1", "inverse": inverse}}}}
+	h.Assert(ms.ParseDependencies(deps, nil) == nil, "dependencies parse")
+	sink := &vSink{failBatch: -1, failing: map[string]bool{}}
+	pl := &IncrementalPipeline{PipelineSpec{source: ms, sink: sink, batchSize: 2}}
+	j := &job{id: "ms-job", title: "ms-job", pipeline: pl, runner: vRunner(hub, 1, 1)}
+	runToFixpoint := func() []string {
+		sink.delivered = nil
+		last := ""
+		for r := 0; r < 7; r++ {
+			_, err := pl.sync(j, context.Background())
+			h.Assert(err == nil, "run succeeds")
+			st := &SyncJobState{}
+			_ = hub.Store.GetObject(server.JobDataIndex, "ms-job", st)
+			if st.ContinuationToken == last {
+				break
+			}
+			last = st.ContinuationToken
+		}
+		var ids []string
+		for _, e := range sink.delivered {
+			ids = append(ids, e.ID)
+		}
+		sort.Strings(ids)
+		return ids
+	}
+	first := runToFixpoint()
+	h.Assert(vContains(first, "ns0:m1") && vContains(first, "ns0:m2"), "the initial load delivers the main entities")
+	// a dataset under the living source is rebuilt
+	switch h.Choice("rebuild", 3) {
+	case 1: // the main dataset
+		h.Assert(hub.Dsm.DeleteDataset("M") == nil, "delete M")
+		M, _ = hub.Dsm.CreateDataset("M", nil)
+		h.Assert(hub.Store.DeleteObject(server.JobDataIndex, "ms-job") == nil, "job reset")
+		fill("t1")
+		_ = runToFixpoint()
+	case 2: // the dependency dataset
+		h.Assert(hub.Dsm.DeleteDataset("D") == nil, "delete D")
+		D, _ = hub.Dsm.CreateDataset("D", nil)
+		h.Assert(hub.Store.DeleteObject(server.JobDataIndex, "ms-job") == nil, "job reset")
+		fill("t1")
+		_ = runToFixpoint()
+	}
+	// the dependency entity changes (content only)
+	dref := ""
+	if !inverse {
+		dref = "ns0:m1"
+	}
+	h.Assert(D.StoreEntities([]*server.Entity{mk("ns0:d1", "changed", dref)}) == nil, "change D")
+	emitted := runToFixpoint()
+	h.Assert(vContains(emitted, "ns0:m1"), "after a dataset under a living source was rebuilt, a dependency change still re-emits the joined main entity :: emitted="+vJoinS(emitted))
+	for _, id := range emitted {
+		h.Assert(id == "ns0:m1" || id == "ns0:m2", "emitted entities come from the main dataset :: "+id)
+	}
+	h.Observe("emitted", vJoinS(emitted))
+}
